@@ -352,13 +352,14 @@ def k3_ops(NS, opname, attr, P, inplace, if_=True):
 
 
 def build_k5(NS, P):
-    o = NS.K5(x=P["x0"], w=P["n0"], big=[1])
+    kw = {}
+    if P.get("keyok"):  # (through the constructor, so that frozen twins can be built the same way)
+        kw["z"] = P["i0"] if "i0" in P else 3  # assigned value of an attribute declared invalidated_by x
+        kw["dz"] = 9  # assigned value of an attribute invalidated_by the (unset) attribute src
+    o = NS.K5(x=P["x0"], w=P["n0"], big=[1], **kw)
     if P.get("b1"):
         o.pl
         o.p  # fill the cache of the derived property (a "cached derived value reachable from the receiver")
-    if P.get("keyok"):
-        o.z = P["i0"] if "i0" in P else 3  # assigned value of an attribute declared invalidated_by x
-        o.dz = 9  # assigned value of an attribute invalidated_by the (unset) attribute src
     return o
 
 
